@@ -31,6 +31,7 @@ CLEAN = {'op': 'clean_storage', 'vacuum': False}
 PRE = {
     'empty': [],
     'loose': adds(A + M[:1]),
+    'small': adds(A + B),  # only small objects: their bytes are still in the user-space buffer when the pack is closed
     'plain': adds(A + M[:1]) + [pack('no'), CLEAN],
     'zipped': adds(A + M[:1]) + [pack('yes'), CLEAN],
     # some packed+cleaned, some packed and still loose, some loose only
@@ -68,6 +69,8 @@ def variants(tier: str, default_fsync_only: bool = False):  # noqa: C901
                 quick=(comp, clpp) in (('no', False), ('yes', True), ('auto', True)))
             add(f'pack_all_loose:{comp}:clpp={int(clpp)}:multipack', pack(comp, clpp), ['mixed', 'loose'], target=500,
                 quick=(comp, clpp) in (('no', True), ('yes', False)))
+    add('pack_all_loose:no:clpp=0:small-objects', pack('no', False), ['small'])
+    add('pack_all_loose:yes:clpp=1:small-objects', pack('yes', True), ['small'])
     add('pack_all_loose:novalidate', pack('no', True, validate=False), ['loose', 'mixed'], quick=False)
     add('pack_all_loose:callback', pack('yes', False, callback=True), ['loose'], quick=False)
     add('pack_all_loose:no-fsync', pack('no', True, do_fsync=False), ['loose'], quick=False, fsync_default=False)
